@@ -226,6 +226,8 @@ def run_case(case: Dict[str, Any]) -> Dict[str, Any]:
             return {"skipped": "inductor draws random numbers from its own generator: not comparable with eager"}
         if op.name == "rms_norm" and cfg["dtype"] == "float64":
             tol = 5e-6  # the RMS statistic is computed in float32 by design
+        if op.name == "softmax" and cfg.get("sm_dtype") == "float32":
+            tol = max(tol, TOL["float32"])  # softmax(dtype=float32) computes in float32 whatever the input dtype
         try:
             t0 = op.make(cfg, torch.Generator().manual_seed(11))
             diff = [k for k in diff_names(op, t0, cfg) if k != case.get("freeze")]
